@@ -9,6 +9,7 @@ import (
 	"crypto/sha512"
 	"fmt"
 	"math"
+	"sort"
 	"strings"
 
 	"github.com/google/go-tdx-guest/rtmr"
@@ -157,6 +158,62 @@ func runC17(r *mc.Run) {
 	}
 	for _, ii := range deepInits {
 		run(ii, depthDeep)
+	}
+	// index sweep: every index in -300..300 and every 2^k+j / -(2^k)+j (k = 0..63, j = -1..3): only 0..3 are
+	// valid, whatever the width or signedness the comparison is carried out in
+	{
+		idxSet := map[int]bool{}
+		for i := -300; i <= 300; i++ {
+			idxSet[i] = true
+		}
+		for k := 0; k < 64; k++ {
+			for j := -1; j <= 3; j++ {
+				idxSet[int(uint64(1)<<uint(k))+j] = true
+				idxSet[-int(uint64(1)<<uint(k))+j] = true
+			}
+		}
+		var idxs []int
+		for i := range idxSet {
+			idxs = append(idxs, i)
+		}
+		sort.Ints(idxs)
+		d := world.Fill("digest-A", 48)
+		done := r.Parallel(len(idxs)*2, func(n int) {
+			idx, viaLog := idxs[n/2], n%2 == 1
+			op := c17op{name: fmt.Sprintf("digest(idx=%d,len=48,A)", idx), valid: idx >= 0 && idx <= 3, index: idx, digest: d}
+			if viaLog {
+				sum := sha512.Sum384([]byte("event-x"))
+				op = c17op{name: fmt.Sprintf("eventlog(idx=%d,hash=SHA-384,log=event-x)", idx), valid: idx >= 0 && idx <= 3, index: idx, digest: sum[:]}
+			}
+			id := "index-sweep/" + op.name
+			if !r.Want(id) {
+				return
+			}
+			t := world.NewTSM()
+			var err error
+			func() {
+				defer world.Recover(&err)
+				if viaLog {
+					err = rtmr.ExtendEventLogClient(t, idx, crypto.SHA384, []byte("event-x"))
+				} else {
+					err = rtmr.ExtendDigestClient(t, idx, d)
+				}
+			}()
+			out := c17Judge(r, id, op, err, t.Log, "", t)
+			var want [4][48]byte
+			if op.valid && err == nil {
+				h := sha512.New384()
+				h.Write(want[idx][:])
+				h.Write(op.digest)
+				copy(want[idx][:], h.Sum(nil))
+			}
+			if t.Regs != want {
+				r.Violate("register-differs-from-extend-chain:index-sweep", id, "after one request a register does not equal the SHA-384 extend chain of the accepted digests for its index", nil)
+				out = "bad-register"
+			}
+			r.Eval(id, true, "index-sweep:"+out)
+		})
+		r.SectionDone(mc.Section{Name: "index-sweep", Evaluations: int64(done), Exhaustive: done == len(idxs)*2, Note: fmt.Sprintf("%d indices x {digest, event log}", len(idxs))})
 	}
 	r.Set("alphabet_size", len(ops))
 	r.Set("initial_states", len(inits))
